@@ -128,6 +128,9 @@ META["rule"] += (
 META["rule"] += (
     " " + 'Added after the third round: every fifth graph has zero-length links; a third of the objects have a past (other node weights and link attribute first, group measures queried); CoupledClimateNetwork sub-block accessors of the similarity, layer networks, cross link distances.')
 
+META["rule"] += (
+    " " + 'Added after the fifth round: the whole-node-set limits also with all nodes listed in another order; internal_global_clustering on directed networks (mean over the group of local_clustering()) and against global_clustering() on the whole set.')
+
 RT = 1e-10
 LW = "lw"
 
